@@ -1,4 +1,9 @@
-STREAMS = ["c16", "c16pol"]
+import os
+import core
+
+STREAMS = ["c16", "c16pol", "c17gw"]
+NEEDS_BINARY = True
+HARNESS_ARGS = ("-rdpgw", os.path.join(core.BUILD, "rdpgw"))
 RULE = ("all 128 combinations of the seven redirect switches x idle timeouts {-2^31, -1, 0, 1, 30, 2^31-1} (more in thorough) x "
         "four capability settings through a full exchange with the real Processor.Process, every request outcome (accepted, "
         "capability mismatch, rejected cookie, denied host, unreachable host, wrong phase) and mutated exchanges with random "
